@@ -297,6 +297,17 @@ impl Scenario for DigestStream {
                     let rounds = if rng.chance(1, 150) { *rng.pick(&[255u64, 256, 257, 65_535, 65_536, 65_537]) } else if rng.chance(1, 12) { rng.range(1, 300) } else { *rng.pick(&[1u64, 2, 3, 7, 64]) };
                     let random_salt = rng.chance(1, 10);
                     let len = *rng.pick(&[1u64, 1, 19, 20, 21, 31, 32, 33, 39, 40, 41, 60, 63, 64, 65, 96, 100, 127, 128, 129, 192, 200]);
+                    // output lengths that need 255 / 256 / 257 blocks of the hash (a block counter that is one byte wide wraps there)
+                    let (rounds, len) = if rng.chance(1, 80) {
+                        let hl: u64 = match algo {
+                            "sha1" => 20,
+                            "sha512" => 64,
+                            _ => 32,
+                        };
+                        (1, hl * *rng.pick(&[255u64, 256, 256, 257]) + *rng.pick(&[0u64, 0, 1]))
+                    } else {
+                        (rounds, len)
+                    };
                     let pl = if rng.chance(1, 3) { *rng.pick(&[0usize, 1, 63, 64, 65, 127, 128, 129]) } else { rng.range(0, 140) as usize };
                     let sl = rng.range(0, 140) as usize;
                     events.push(json!({"op": "pbkdf2", "algo": algo, "pw": hx(&rng.bytes(pl)), "salt": hx(&rng.bytes(sl)), "rounds": rounds, "len": len, "random_salt": random_salt, "entropy": hx(&rng.bytes(if random_salt { 64 } else { 0 }))}));
@@ -312,7 +323,8 @@ impl Scenario for DigestStream {
                     events.push(json!({"op": "new", "kind": kind, "key": hx(&rng.bytes(klen)), "born_reversed": kind == "hash160" && rng.chance(1, 6)}));
                     let staged = rng.chance(1, 10);
                     let stage_lens = if staged { Self::stage_then_bulk_lengths(rng) } else { vec![] };
-                    let n = if staged { stage_lens.iter().sum() } else if rng.chance(2, 3) { *rng.pick(&LENS) } else { rng.usize(max_len) };
+                    // rarely a message around the 16-bit boundary or well beyond it (one per few hundred sinks: they are big)
+                    let n = if staged { stage_lens.iter().sum() } else if rng.chance(1, 300) { *rng.pick(&[65_535usize, 65_536, 65_537, 70_000, 131_073]) } else if rng.chance(2, 3) { *rng.pick(&LENS) } else { rng.usize(max_len) };
                     let data = rng.bytes(n);
                     let (frags, fname) = if staged {
                         let mut out = vec![];
@@ -477,7 +489,7 @@ impl Scenario for DigestStream {
                         "sha512" => (PBKDF2Hashes::SHA512, "sha512", 64),
                         _ => (PBKDF2Hashes::SHA256, "sha256", 32),
                     };
-                    let (pw, salt, rounds, len) = (jhex(ev, "pw"), jhex(ev, "salt"), ju64(ev, "rounds").max(1) as u32, jusize(ev, "len").clamp(1, 1024));
+                    let (pw, salt, rounds, len) = (jhex(ev, "pw"), jhex(ev, "salt"), ju64(ev, "rounds").max(1) as u32, jusize(ev, "len").clamp(1, 20_000));
                     if len > hl {
                         ctx.probe("pbkdf2_multi_block");
                     }
